@@ -7,6 +7,8 @@ import math
 import warnings
 from decimal import Decimal
 
+import numpy as np
+
 from vf.core import Result
 
 PROP = "C12"
@@ -271,6 +273,26 @@ def check_card(types, phase, writer, res, fields=None):
         why = fields_match(list(got[0]), want, writer)
         if why:
             msgs.append("%s form (wtcard%s, %d fields): %s" % (form, writer, len(fields), why))
+            continue
+        # the other return forms are projections of the list form: strings and blanks become `blank`
+        try:
+            with warnings.catch_warnings():
+                warnings.simplefilter("ignore")
+                arr = bulk.rdcards(io.StringIO(txt), "mycard", blank=-9.5)
+                lst2 = bulk.rdcards(io.StringIO(txt), "mycard", return_var="list", keep_name=True, blank=None)
+                dct = bulk.rdcards(io.StringIO(txt), "mycard", return_var="dict", blank=-9.5)
+        except Exception as e:  # noqa
+            msgs.append("rdcards (array/dict/keep_name) raised %r on the %s form written by wtcard%s" % (e, form, writer))
+            continue
+        base = list(got[0])
+        proj = np.array([[-9.5 if (isinstance(v, str)) else float(v) for v in base]])
+        if arr is None or arr.shape != proj.shape or not np.array_equal(arr, proj):
+            msgs.append("%s form (wtcard%s): array form %s is not the list form with strings/blanks replaced by `blank` %s" % (form, writer, None if arr is None else arr.tolist(), proj.tolist()))
+        if not (isinstance(lst2, list) and len(lst2) == 1 and str(lst2[0][0]).lower().startswith("mycard") and list(lst2[0][1:]) == base):
+            msgs.append("%s form (wtcard%s): keep_name=True does not return [name] + fields: %s" % (form, writer, lst2))
+        key = base[0] if not isinstance(base[0], str) else -9.5
+        if not (isinstance(dct, dict) and len(dct) == 1 and key in dct and np.array_equal(np.asarray(dct[key]).ravel(), proj.ravel())):
+            msgs.append("%s form (wtcard%s): dict form %s is not {first value: row}" % (form, writer, dct))
     return msgs
 
 
